@@ -169,14 +169,32 @@ class Session(object):
 
         def recvfrom(n):
             d, a = orig_recv(n)
-            if len(d) >= 20 and d[12] == 2:
-                cl.hello_seen = d
+            if len(d) >= 20 and d[12] == 2 and (cl.udp.conn is None or cl.udp.conn.session_key_bytes is None):
+                cl.hello_seen = d        # (the hello the client may key itself from: later hello-typed datagrams are attacks)
             return d, a
         cl.sock.recvfrom = recvfrom
         flt = attack.get("filter")
         if flt:
             f = lambda direction, a, d, info: flt(direction, a, d, cl) if a == addr else None
             w.net.filters.append(f)
+        if attack.get("retry_same_client"):
+            # a first attempt on this UdpClient goes unanswered and ends DISCONNECTED; the application then calls connect()
+            # again on the SAME object (the pin given to the constructor must still hold)
+            drop = lambda direction, a, d, info: "drop" if (a == addr and direction == "s2c") else None
+            w.net.filters.insert(0, drop)
+            cl.udp.setConnectionTimeout(0.3)
+            cl.connect()
+            w.run_until(lambda _w: getattr(cl.udp.conn.status, "value", 0) == 4, max_ticks=120)
+            for _ in range(40):
+                # (the idle server loop sleeps until a datagram arrives: junk from elsewhere lets it sweep its half-open entries)
+                if addr not in w.ctxt.temp_connections:
+                    break
+                w.net.inject("c2s", ("10.250.0.1", 999), A.forge_crc("c2s", 5, 1, 0, 0, [(1, 5, b"")], int(w.clock.now)), "junk")
+                w.step(5)
+            w.net.filters.remove(drop)
+            if getattr(cl.udp.conn.status, "value", 0) == 4 and addr not in w.ctxt.temp_connections:
+                self.c.inc("retries_on_same_client_object")
+            cl.hello_seen = None
         cl.connect()
         before_events = self.c.get("server_connect_events", 0)
         w.step(attack.get("ticks", 8))
@@ -205,6 +223,10 @@ class Session(object):
                     self.viol("keys-differ", "after an honest handshake the two ends hold different keys")
                 if conn.token != sconn.token or cl.udp.token() != sconn.token:
                     self.viol("tokens-differ", "after an honest handshake tokens differ: %r vs %r" % (conn.token, sconn.token))
+                n_true = sum(1 for t, ok in cl.connect_cb if ok)
+                if n_true != 1 or getattr(conn.status, "value", 0) != 2:
+                    self.viol("handshake-rerun-on-connected-client", "after an honest handshake (and %s) the client's connect callback reported success %d times, status %s" % (
+                        "datagrams injected later" if attack.get("then") else "nothing else", n_true, conn.status))
         expect_fail = attack.get("must_fail")
         if expect_fail == "client" and keyed:
             self.viol("altered-hello-accepted", "the client became keyed/connected although the hello was altered/re-signed/foreign")
@@ -387,6 +409,43 @@ def run_shard(cfg):
             k, p = S.handshake({"name": "replay-genuine-hello-of-another-session", "filter": replace_filter("s2c", 2, replay)})
             out["counters"].inc("observation:cross-session-hello-client-keyed" if k else "observation:cross-session-hello-client-rejected")
             out["counters"].inc("observation:cross-session-hello-server-promoted" if p else "observation:cross-session-hello-server-not-promoted")
+        # --- after the handshake: hello-typed datagrams towards the CONNECTED client must not re-run it.  The attacker
+        #     re-wraps (fresh header, CRC form - hellos are cleartext by design) the signed hello body of another session,
+        #     of this session, or one it signed itself; both ends must still agree afterwards
+        def rewrap(body_of):
+            def then(cl):
+                conn = cl.udp.conn
+                body = body_of(cl)
+                if body is None or conn is None:
+                    return
+                for k in range(3):
+                    seq = (int(conn.bitfield_pkt.current_seqnum) + 1 + k) % 65535 + 1
+                    d = A.forge_crc("s2c", 2, seq, int(conn.seq_sending), 0xffffffff, [(int(conn.bitfield_msg.current_seqnum) + 1 + k, 2, body)], now())
+                    S.w.net.inject("s2c", cl.addr, d, "forged:rewrapped-hello")
+                out["counters"].inc("post_handshake_rewrapped_hellos", 3)
+            return then
+
+        def body_of_datagram(d):
+            dec = L.decode_datagram(d, None)
+            return dec.msgs[0][2] if dec.ok and dec.msgs else None
+        now = lambda: int(S.w.clock.now)
+        if "d" in other_session:
+            S.handshake({"name": "post-handshake:rewrapped-hello-of-another-session", "honest": True, "then": [rewrap(lambda cl: body_of_datagram(other_session["d"]))], "ticks": 10})
+        S.handshake({"name": "post-handshake:rewrapped-hello-of-this-session", "honest": True,
+                     "then": [rewrap(lambda cl: body_of_datagram(cl.hello_seen) if cl.hello_seen else None)], "ticks": 10})
+
+        def attacker_body(cl):
+            base = parse_server_hello(C, cl.hello_seen) if cl.hello_seen else None
+            if base is None:
+                return None
+            return body_of_datagram(build_server_hello(C, base, eph=atk_eph.getPublicKey().getBytes(), signer=atk_root))
+        S.handshake({"name": "post-handshake:rewrapped-hello-signed-by-attacker", "honest": True, "then": [rewrap(attacker_body)], "ticks": 10})
+        # --- the application retries connect() on the SAME UdpClient after an unanswered attempt: the pin still holds
+        S.handshake({"name": "retry-same-client:honest", "honest": True, "retry_same_client": True, "ticks": 10})
+        for nm, b_ in (("resigned-by-attacker-root", lambda b, cl: build_server_hello(C, b, eph=atk_eph.getPublicKey().getBytes(), signer=atk_root)),
+                       ("resigned-same-params-attacker-root", lambda b, cl: build_server_hello(C, b, signer=atk_root)),
+                       ("signature-random", lambda b, cl: build_server_hello(C, b, signature=r.randbytes(len(b["signature"]))))):
+            subst("retry-same-client:" + nm, b_, retry_same_client=True, ticks=10)
         # a hello from a different server (other root key), client pinned to the honest key: handled by 'resigned' above.
         # the same with a client pinned to a key whose private half nobody here holds
         S.handshake({"name": "client-pinned-to-foreign-key", "must_fail": "client", "judge_pinned": False}, pinned=True,
@@ -401,7 +460,6 @@ def run_shard(cfg):
             m = C.HandshakeClientChallengeResponseMessage()
             m.token = token
             return m.dumpb()
-        now = lambda: int(S.w.clock.now)
         challenge_attack("right-key-wrong-token", lambda d, cl: [(A.seal(cl.udp.conn.session_key_bytes, "c2s", 3, 2, 1, 0,
                                                                  [(2, 3, with_token(cl, cl.udp.conn.token ^ 1))], now()), "forged:right-key-wrong-token")])
         challenge_attack("wrong-key-right-token", lambda d, cl: [(A.seal(r.randbytes(16), "c2s", 3, 2, 1, 0,
@@ -517,7 +575,7 @@ def finish(tier, seed, results):
     m = merge(results)
     inconclusive = []
     need(m["counters"], ["honest_handshakes", "root_key_signatures", "client_key_derivations", "client_params_in_signed_set",
-                         "signature_verified_independently", "promotions_with_proof", "client_left_unconnected",
+                         "signature_verified_independently", "promotions_with_proof", "post_handshake_rewrapped_hellos", "retries_on_same_client_object", "client_left_unconnected",
                          "mutations_type1", "mutations_type2", "mutations_type3", "server_connect_events", "concurrent_pending_pairs"], inconclusive)
     cov = {
         "evaluations": m["evaluations"],
@@ -530,7 +588,9 @@ def finish(tier, seed, results):
                 "right key/wrong token, wrong key/right token, plaintext, hello-typed; duplication/late duplication/loss of each of "
                 "the three datagrams. distinct = distinct (attack, variant)",
         "fault_classes": ["mutate-type1", "mutate-type2", "mutate-type3", "substitute:*", "challenge:*", "network-dup/dup-late/lose x type1-3",
-                          "replay-genuine-hello-of-another-session", "client-pinned-to-foreign-key"],
+                          "replay-genuine-hello-of-another-session", "client-pinned-to-foreign-key",
+                          "post-handshake:rewrapped-hello (other session / this session / attacker-signed) towards the connected client",
+                          "retry-same-client: connect() again on the same UdpClient after an unanswered attempt (honest and attacked)"],
         "samples": m["samples"],
         "counters": m["counters"],
     }
